@@ -43,6 +43,15 @@ MUTANTS = [
     ("C18-module-cache", "C18", "types.py", "        compiler = state[\"compiler\"]\n\n        candidates = (", "        compiler = state[\"compiler\"]\n        _SEEN[self.name] = True\n\n        candidates = (", 1),
     ("C18-awaiting-mark", "C18", "deferred.py", "        assert Awaiting.awaiting_stack.pop() is self.deferred\n        self.deferred.is_awaiting = False", "        assert Awaiting.awaiting_stack.pop() is self.deferred\n        if exc_type is None:\n            self.deferred.is_awaiting = False", 1),
     ("C18-handlers-pop-late", "C18", "reports.py", "        assert self.handlers_stack.pop() is self\n\n        if hasattr(self.obj, \"__exit__\"):", "        if hasattr(self.obj, \"__exit__\"):", 1),
+    ("C02-dword-size", "C02", "metacommands.py", "@metacommand(size=lambda state, *operands: 4 * (len(operands) or 1))", "@metacommand(size=lambda state, *operands: 2 * (len(operands) or 1))", 1),
+    ("C02-wordlist-not-counted", "C02", "compiler.py", "                    chunk = self.compile_word_list(insn, insn.words, state)\n                    data += chunk\n                    if isinstance(chunk, BaseDeferred):\n                        addr += chunk.length()", "                    chunk = self.compile_word_list(insn, insn.words, state)\n                    data += chunk\n                    if isinstance(chunk, BaseDeferred):\n                        addr += 2", 1),
+    ("C02-include-size0", "C02", "metacommands.py", "@metacommand\ndef include(", "@metacommand(size=0)\ndef include(", 1),
+    ("C02-files-not-continued", "C02", "compiler.py", "            generated_code += data\n            if isinstance(data, BaseDeferred):\n                addr += data.length()", "            generated_code += data\n            if isinstance(data, BaseDeferred):\n                addr += 0", 1),
+    ("C12-default-base", "C12", "compiler.py", 'link_base["promise"].settle(0o1000)', 'link_base["promise"].settle(0o2000)', 1),
+    ("C12-no-conflict-check", "C12", "compiler.py", '        if state["link_base"]["promise"].settled:\n            prev_link = state["link_base"]["set_where"]', '        if False:\n            prev_link = state["link_base"]["set_where"]', 1),
+    ("C12-late-binding", "C12", "compiler.py", "                            closure(insn, addr, state)\n", "                            closure(insn, None, None)\n", 1),
+    ("C12-skip-backward-allowed", "C12", "compiler.py", "                                    if length < 0:", "                                    if length < -2:", 1),
+    ("C16-repeat-addr", "C02", "metacommands.py", "        if isinstance(chunk, BaseDeferred):\n            addr += chunk.length()\n        else:\n            addr += len(chunk)\n        result += chunk", "        result += chunk", 1),
     # negative controls: semantically neutral edits, every check must stay green
     ("NEG-rename-local", "C06", "metacommand_impl.py", "    value = wait(arg_token.resolve(state))\n\n    if not isinstance(value, int):", "    value = wait(arg_token.resolve(state))\n    _unused = 1\n\n    if not isinstance(value, int):", 0),
     ("NEG-comment-lines", "C01", "insns.py", "def try_as_register(operand, state):", "# a comment\n\ndef try_as_register(operand, state):", 0),
